@@ -325,8 +325,12 @@ func (c *ColLowCardinality[T]) Prepare() error {
 	c.keys = append(c.keys[:0], make([]int, len(c.Values))...)
 	if c.kv == nil {
 		c.kv = map[T]int{}
-		c.index.Reset()
 	}
+	// Column can be prepared multiple times (e.g. when it is reused between
+	// blocks or was decoded into), so dictionary is always built from scratch
+	// to be consistent with keys, that are numbered from zero.
+	clear(c.kv)
+	c.index.Reset()
 
 	// Fill keys with value indexes.
 	var last int
